@@ -714,6 +714,25 @@ static void run_plan(const Plan& P) {
       emit_batch("text-maxlen", Schema{TEXT}, single(part), (i / 6) % 3 == 1 ? RESET : FRESH, false, true, 2500);
     }
   }
+  // --- texts of 64 KiB and more (the length no longer fits the encoder's 16-bit size type): they are cut at
+  //     maxlen like any other over-long text, so all of them normalise to the same value as the maxlen-long
+  //     text and none of them to a short one (seeds c11c / c15b: length reduced mod 65536 before the cut)
+  {
+    std::vector<Bytes> ts;
+    ts.push_back(Bytes{});
+    ts.push_back(Bytes(1, 'n'));
+    ts.push_back(Bytes(5, 'n'));
+    ts.push_back(Bytes(maxlen, 'n'));
+    for (std::size_t len : {std::size_t{65535}, std::size_t{65536}, std::size_t{65537}, std::size_t{65541},
+                            std::size_t{131072}, std::size_t{131077}, std::size_t{200000}})
+      ts.push_back(Bytes(len, 'n'));
+    emit_batch("text-64k", Schema{TEXT}, single(ts), FRESH, true, true, 2500);
+    std::vector<Bytes> t2;
+    t2.push_back(Bytes(3, 'p'));
+    t2.push_back(Bytes(65536 + 3, 'p'));
+    t2.push_back(Bytes(maxlen + 1, 'p'));
+    emit_batch("text-64k", Schema{TEXT}, single(t2), RESET, true, true, 1000);
+  }
   // --- text with embedded / trailing pads, random zero-free text
   for (std::size_t rep = 0; rep < 6 * scale; ++rep) {
     std::vector<Bytes> ts;
